@@ -3,6 +3,7 @@
    genesis determinism are checked on the implementation by the harness (hash recomputed with SHA-256). *)
 From Coq Require Import List ZArith.
 From Verif Require Import GoSem Bytes Model Sweep Order Conv Exact.
+From Verif Require Sem HeadKeys.
 Import ListNotations.
 
 (* at all times the heads are exactly the merged commits that no merged commit names as parent *)
@@ -28,3 +29,11 @@ Proof.
   exact (Sweep.sweep_init hgt par wf hpos heads c H Hh Hc).
 Qed.
 Print Assumptions C04_walk_exact.
+
+(* field-level heads: the head set of a field is listed by a key prefix; with the closing separator the listing returns
+   exactly the keys of that field, for all identifiers (the bare prefix of the pinned code also returned the heads of
+   every field whose identifier starts with the same digits - bare_listing_refuted, finding F57) *)
+Theorem C04_field_head_listing_exact : forall doc f f' c, ~ In HeadKeys.sep f -> ~ In HeadKeys.sep f' ->
+  (Sem.is_prefix (HeadKeys.list_prefix doc f) (HeadKeys.head_key doc f' c) = true <-> f = f').
+Proof. exact HeadKeys.listing_exact. Qed.
+Print Assumptions C04_field_head_listing_exact.
